@@ -25,6 +25,7 @@ def run(repo, report, tier):
     report.guard("C06.R1", "pipes", r1_frames, repo, report)
     report.guard("C06.R2", "OutputFiles", r2_files, repo, report)
     report.guard("C06.R3", "OrderedChunkWriter", r3_ordered, repo, report)
+    report.guard("C06.R2", "payload sizes", r2_unbounded_payloads, repo, report)
     report.guard("C06.R4", "__iadd__ classes", r4_merges, repo, report)
     report.guard("C06.R4", "Statistics.__iadd__ per-read slots", r4_statistics_slots, repo, report)
     report.guard("C06.R5", "pickling", r5_pickle, repo, report)
@@ -746,7 +747,12 @@ def r5_pickle(repo, report):
                 unp = [x for x in ast.walk(ss) if isinstance(x, ast.Assign) and isinstance(x.targets[0], ast.Tuple)]
                 names = [e.id for e in unp[0].targets[0].elts] if unp else []
                 call_args = [src(a) for a in init_calls[0].args] + ["**" + src(k.value) for k in init_calls[0].keywords if k.arg is None]
-                ok = len(names) == len(elts) and call_args == [names[0]] + ["**" + nm for nm in names[1:]] and all((chain(e) or "")[5:] in pmap.get(p, []) or True for e, p in zip(elts, ps or []))
+                explicit = len(ps or [])
+                restored_positionally = sum(1 for a_ in call_args if not a_.startswith("**"))
+                if explicit != restored_positionally:
+                    facts["constructor_parameters"] = ps
+                    facts["problem"] = f"__init__ names {explicit} parameter(s) {ps} but __setstate__ restores {restored_positionally} positionally: a named parameter is not part of **kwargs, so it is not in the pickled state and gets its default in the worker"
+                ok = explicit == restored_positionally and len(names) == len(elts) and call_args == [names[0]] + ["**" + nm for nm in names[1:]] and all((chain(e) or "")[5:] in pmap.get(p, []) or True for e, p in zip(elts, ps or []))
                 c2, init = repo.method(cls.name, "__init__")
                 kw = init.args.kwarg.arg if init.args.kwarg else None
                 st = {chain(t): src(x.value) for x in ast.walk(init) if isinstance(x, ast.Assign) for t in x.targets if chain(t)}
@@ -810,3 +816,15 @@ def r4_statistics_slots(repo, report):
     report.ob("C06.R4", "Statistics.__iadd__: per-read lists are addressed with the loop index", not const_idx and len(per_read) >= 5, facts={"per_read_lists": sorted(per_read), "constant_subscripts": const_idx},
               expected=f"inside 'for {i} in (0, 1)' every per-read list is subscripted with {i}", loc=repo.loc(lp),
               why=(f"{const_idx[0]} inside the loop over the read index: the bound/tally of one read is used for the other (R2 adapters beyond the number of R1 adapters are not merged)" if const_idx else ""))
+
+
+def r2_unbounded_payloads(repo, report):
+    """What a worker sends back for one chunk may be LARGER than the chunk it read (interleaved output of two files, info
+    file rows, names extended by -x/-y/--rename).  recv_bytes(maxlength) raises OSError('bad message length') for a larger
+    message, so every byte payload is received without a size limit."""
+    mod = repo.module("runners")
+    cs = [x for x in ast.walk(mod.tree) if isinstance(x, ast.Call) and isinstance(x.func, ast.Attribute) and x.func.attr == "recv_bytes"]
+    limited = [f"line {x.lineno}: {src(x)[:80]}" for x in cs if x.args or x.keywords]
+    report.ob("C06.R2", "byte payloads are received without a size limit", len(cs) >= 2 and not limited, facts={"recv_bytes_calls": len(cs), "with_limit": limited}, loc="src/cutadapt/runners.py",
+              expected="connection.recv_bytes() without maxlength in the reader->worker and worker->main protocol",
+              why=(f"{limited[0]}: a processed chunk larger than that limit (info file, interleaved output, longer names) aborts the multi-core run with 'bad message length' where one core succeeds" if limited else ""))
